@@ -9,10 +9,6 @@
 import RV.Model.RolloutSM
 namespace RV.RolloutSM
 
-/-- the reset fires: the rollout was Progressing and its new status says Terminating or Disabling -/
-def exitsProgressing (w : World) (r : StepResult) : Bool :=
-  w.ro.phase = .progressing && (r.w.ro.phase = .terminating || r.w.ro.phase = .disabling)
-
 theorem resetOnExit_eq (w : World) (r : StepResult) :
     resetOnExit w r = if exitsProgressing w r then { r with w := { r.w with ro := clearCursor r.w.ro } } else r := by
   unfold resetOnExit exitsProgressing
